@@ -12,6 +12,7 @@ import (
 	"fmt"
 	"os"
 	"runtime"
+	"runtime/pprof"
 	"sort"
 	"strings"
 	"sync"
@@ -331,6 +332,13 @@ func main() {
 		"the planner is driven with nanosecond window bounds (the HTTP service truncates them to seconds before planning)",
 	}
 
+	if pf := os.Getenv("C07_CPUPROFILE"); pf != "" {
+		f, err := os.Create(pf)
+		if err == nil {
+			pprof.StartCPUProfile(f)
+			defer pprof.StopCPUProfile()
+		}
+	}
 	start, end := T0, T0+10000
 	uni := universalDB(start, end)
 	dbs := map[string]*Database{uni.Name: uni}
@@ -561,6 +569,7 @@ func main() {
 	if harnessErrors > 0 {
 		ev.Fatal("%d harness errors, first: %s", harnessErrors, harnessFirst)
 	}
+	pprof.StopCPUProfile()
 	if chsimUnsupported > 0 {
 		ev.Fatal("chsim returned ErrUnsupported for %d cases of the enumerated grammar (must be 0), first: %s", chsimUnsupported, chsimUnsupportedFirst)
 	}
